@@ -154,6 +154,21 @@ fn measured(bounds: &Bounds, entry: &str, tpl: &str, input: &[u8]) -> Value {
     json!({"res": res, "detail": detail, "ops": out.ops, "cpu_us": cpu, "alloc": peak, "in_len": input.len(), "panics": panics})
 }
 
+/// "Promptly" for inputs that were grown to ~60 KB: exceeding the fixed CPU bound is a violation only when the cost
+/// is superlinear in the input (doubling the input more than 2.8x the cost) or beyond ten times the bound; a step that
+/// is slow but proportionate to its input is reported as a note, not as a hang.
+pub fn downgrade_if_linear(bounds: &Bounds, m: &mut Value, cpu_half: u64) {
+    let cpu = m["cpu_us"].as_u64().unwrap_or(0);
+    m["cpu_half_us"] = json!(cpu_half);
+    if cpu <= 10 * bounds.cpu_us && cpu_half > 0 && (cpu as f64) / (cpu_half as f64) < 2.8 {
+        m["res"] = json!("value");
+        m["slow_linear"] = json!(true);
+        m["detail"] = json!(format!("{cpu} us CPU, linear in the input ({cpu_half} us at half the size)"));
+    } else {
+        m["detail"] = json!(format!("{} ; {} us at half the size (superlinear)", m["detail"].as_str().unwrap_or(""), cpu_half));
+    }
+}
+
 pub struct Ctx {
     pub grammars: HashMap<String, Vec<Leaf>>,
     pub bounds: Bounds,
@@ -192,6 +207,9 @@ fn main() {
         let tpl = g["tpl"].as_str().unwrap().to_string();
         let leaves: Vec<Leaf> = serde_json::from_value(g["leaves"].clone()).expect("leaf table");
         grammars.insert(tpl, leaves);
+    }
+    if let Some(f) = std::env::var("VERIF_FILL").ok().and_then(|s| s.parse::<usize>().ok()) {
+        grammar::FILL.store(f, std::sync::atomic::Ordering::Relaxed);
     }
     let cases = read_ndjson(&args[2]);
     let mut out = NdjsonOut::create(&args[3]);
@@ -240,9 +258,14 @@ fn main() {
         let mut obs = json!({"type": "obs", "case": ci, "entry": entry, "phase": c["phase"], "tpl": tpl, "field": c["field"], "mut": mutn});
         if c["kind"] != "decoder" {
             // one runtime per case: helper tasks the stack spawned die with it and cannot bleed into the next case
+            let t_case = std::time::Instant::now();
             let rt = tokio::runtime::Builder::new_current_thread().enable_all().build().expect("runtime");
             let r = rt.block_on(live::run_case(&ctx, &mut live_state, ci, c));
+            let t_run = t_case.elapsed();
             drop(rt);
+            if std::env::var("VERIF_TRACE").is_ok() && t_case.elapsed().as_millis() > 100 {
+                eprintln!("slow case {ci} {entry} {} {tpl} {} {mutn}: run {} ms, total {} ms", c["phase"], c["field"], t_run.as_millis(), t_case.elapsed().as_millis());
+            }
             for b in live_state.take_baselines() {
                 out.push(&b);
             }
@@ -265,6 +288,18 @@ fn main() {
             let mut rng = ctx.rng_for(ci, v);
             let Some(input) = g.concretise(leaves, idx, mutn, if v > 0 { Some(&mut rng) } else { None }) else { continue };
             let mut m = measured(&ctx.bounds, entry, tpl, &input);
+            if m["res"] == "hang" && mutn.starts_with("dup_fill") {
+                // how does the cost scale? half the fill, same class
+                let full = grammar::FILL.load(std::sync::atomic::Ordering::Relaxed);
+                grammar::FILL.store(full / 2, std::sync::atomic::Ordering::Relaxed);
+                let mut rng2 = ctx.rng_for(ci, v);
+                let half = g.concretise(leaves, idx, mutn, if v > 0 { Some(&mut rng2) } else { None });
+                grammar::FILL.store(full, std::sync::atomic::Ordering::Relaxed);
+                if let Some(half) = half {
+                    let mh = measured(&ctx.bounds, entry, tpl, &half);
+                    downgrade_if_linear(&ctx.bounds, &mut m, mh["cpu_us"].as_u64().unwrap_or(0));
+                }
+            }
             m["variant"] = json!(v);
             let sev = severity(m["res"].as_str().unwrap());
             if sev > 2 {
